@@ -4,6 +4,10 @@ import json, os, sys
 HERE = os.path.dirname(os.path.abspath(__file__))
 
 CHECKS = {
+ 'C20': dict(technique='runtime monitor: documented option table (defaults, in-domain and out-of-domain value pools, cross-option rules) applied to every constructor; obj.config inspection; Cls(obj.config)==obj and kwargs-vs-dict differentials',
+             text='Exploration by runtime monitoring: for 32 public classes (graders, samplers, comparers, schedules) the default construction is checked option by option against the documented defaults, every single-option deviation from in-domain and out-of-domain pools is constructed (acceptance, rejection, error class must be a configuration/validation error), plus unknown keys, non-dict configs, random multi-option combinations, 37 cross-option rule violations with positive controls, all documented answers formats (canonical tuple-of-dicts form), re-construction from obj.config and kwargs/dict equivalence.',
+             note='Trusted: option table transcribed from the documentation text of each class; readings R12 (bool/int) and R13 (re-construction demanded for graders only).',
+             ref='DESIGN.md section 4, C20'),
  'C11': dict(technique='runtime monitor: reference state machine for expect inference + fresh-instance differential over exhaustive event sequences; read-only fingerprints of author config objects, evaluator scopes (tap on MathExpression.eval), sibling instances and all process-wide library state at quiescent points',
              text='Exploration by runtime monitoring: every event sequence of length <=3 (<=4 thorough) over (expect absent/valid/other valid/unusable) x (right/other right/wrong/malformed input) for six item-grader classes x answers configured or not x debug on/off is executed on one instance and each step compared with a freshly constructed grader given the expect the state machine says is in force (with debug=True the log must describe the current call only); random histories over graders sharing subgrader instances, debug subgraders, negative-power switches with raising calls, registered class defaults and reused config dictionaries; fingerprints of configs, scopes and process-wide settings must not change.',
              note='Trusted: a fresh grader (real code) as the history-free reference; the definition of a "successfully supplied" expect given in the evidence assumptions; fingerprints are read-only.',
